@@ -695,6 +695,16 @@ def descr_location(b, r, key):
     return 'metaclass' if in_meta and isinstance(r, type) else ('class' if in_cls else 'other')
 
 
+def dict_shadowed_plain(r):
+    """type(r) shadows __dict__ with something that is not a descriptor: dir() then does not see the
+    instance attributes (object.__dir__ reads self.__dict__); py_dir does not model that."""
+    from jedi.inference.compiled import getattr_static as GS
+    if isinstance(r, type):
+        return False
+    d = GS._shadowed_dict(type(r))
+    return d is not GS._sentinel and type(d) not in (types.MemberDescriptorType, types.GetSetDescriptorType)
+
+
 def meta_shadowed(r):
     """Does some class on the MRO of r's class have a metaclass that shadows __dict__?"""
     from jedi.inference.compiled import getattr_static as GS
@@ -768,7 +778,7 @@ def corr_task(task):
             names = sorted(n for n in names if modelled_name(enc, r, n))
             d = None if d_all is None else [n for n in d_all if modelled_name(enc, r, n)]
             acc = A.DirectObjectAccess(acc_state, r)
-            if d is not None:
+            if d is not None and not dict_shadowed_plain(r):
                 add('dir', '(QDir %d %s %s)' % (o, g_list(sorted(set(names) | set(d)), N.g, 'str'),
                                                 g_list(d, N.g, 'str')), (o,))
             has_user_getattribute = any(
@@ -1316,8 +1326,10 @@ def stream_correspondence(ctx, tmpdir, intensify):
             if 'where' in bad:
                 sig['where'] = bad['where']
             flagged.add((bad.get('recv'), bad.get('name')))
+            data = {k: v for k, v in bad.items() if k not in ('what', 'stream', 'cls')}
             ctx.deviation(sig, dict(graph=_graph_for_json(g), route=res['route'], tag=res['tag'],
-                                    receiver=res['recv_desc'].get(bad.get('recv')), **bad), bad['what'])
+                                    receiver=res['recv_desc'].get(bad.get('recv')), full=sorted(task[4]), **data),
+                          bad['what'])
         for i in fails:
             m = res['meta'][i]
             if (m[1], m[2] if len(m) > 2 else None) in flagged:
